@@ -205,9 +205,9 @@ Tok(tok, n) ==
 
 FullPos   == {"()", "-INF", "-1", "0", "0.5", "1", "1.5", "2", "2.5", "3", "len", "len+1", "INF", "NaN",
               "-0.5", "0.5e0", "2e0", "2.5e0"}
-SmallPos  == {"0", "0.5", "1", "1.5", "2", "2.5", "len+1", "INF", "NaN"}
+SmallPos  == {"0.5", "1", "1.5", "2.5", "len+1", "INF", "NaN"}
 PosToks   == IF GridName = "full" THEN FullPos ELSE SmallPos
-LenToks   == IF GridName = "full" THEN FullPos ELSE {"0", "0.5", "1", "1.5", "2.5", "INF", "NaN"}
+LenToks   == IF GridName = "full" THEN FullPos ELSE {"0.5", "1", "1.5", "INF", "NaN"}
 IntToks   == IF GridName = "full" THEN {"()", "-1", "0", "1", "2", "3", "len", "len+1", "1.5", "2e0"}
              ELSE {"0", "1", "2", "len", "len+1", "2e0"}
 PredToks  == PosToks \cup (IF GridName = "full" THEN {"2.0", "'a'", "true()", "(1,2)"} ELSE {"'a'", "2.0"})
